@@ -14,14 +14,17 @@ ck = importlib.util.module_from_spec(_spec)
 _loader.exec_module(ck)
 
 SCENARIOS = {
-    "C17": ["blocking", "timeout", "contended", "in_runtime", "deadletters", "blocking", "timeout", "contended"],
+    "C17": ["blocking", "timeout", "contended", "in_runtime", "deadletters", "blocking_ask_vs_end", "blocking", "timeout", "contended", "blocking_ask_vs_end"],
     "C01": ["async_mt"],
+    "C03": ["ask_vs_end", "ask_vs_end", "async_mt"],
     "C02": ["async_mt"],
-    "C06": ["async_mt"],
+    "C06": ["kill_then_drop", "kill_then_drop", "async_mt"],
     "C11": ["ids"],
     "C13": ["deadletters", "blocking"],
 }
 RATES = ["0.01", "0.05", "0.2"]
+# which property does a never-returning operation violate, per scenario
+HANG_PROP = {"async_mt": "C03", "ask_vs_end": "C03"}
 
 def menv():
     e = ck.env()
@@ -59,19 +62,21 @@ def one_run(scenario, wseed, miri_seed, rate):
     r = subprocess.run(["cargo", "+nightly", "miri", "run", "--offline", "-q", "--", scenario, str(wseed)], cwd=ck.MTH, env=e, stdout=subprocess.PIPE, stderr=subprocess.STDOUT, text=True, timeout=900)
     return r.returncode, r.stdout
 
-def classify(code, out, want_props):
-    """-> list of (prop, sig, text) violations, or raises for harness errors"""
+def classify(code, out, hang_prop="C17"):
+    """-> list of (prop, sig, text) violations, or raises for harness errors. `hang_prop` = the property a
+    never-returning call violates in the scenario at hand (blocking calls: C17; asks on an ending actor: C03)"""
+    hang_prop = hang_prop or "C17"
     v = []
     for l in out.splitlines():
         if l.startswith("VIOLATION "):
             _, prop, sig, text = l.split(" ", 3)
             v.append((prop, sig, text))
     if "the evaluated program deadlocked" in out:
-        v.append(("C17", "hang", "Miri reports that every thread is blocked forever (a blocking call never returned)"))
+        v.append((hang_prop, "hang", "Miri reports that every thread is blocked forever: an operation never returned" + (" (an ask on an actor that has ended waits forever)" if hang_prop == "C03" else " (a blocking call never returned)")))
     elif "Undefined Behavior" in out or "Data race detected" in out:
         where = "rsactor" if "/src/actor" in out or "rsactor" in out else "elsewhere"
         if where == "rsactor":
-            v.append(("C17", "undefined-behaviour", "Miri reports undefined behaviour / a data race in rsactor code"))
+            v.append((hang_prop, "undefined-behaviour", "Miri reports undefined behaviour / a data race in rsactor code"))
         else:
             raise RuntimeError("Miri reported UB outside rsactor:\n" + out[-2000:])
     elif code != 0 and not v:
@@ -122,7 +127,7 @@ def summarize(prop, results):
         if len(samples) < 3 and evs:
             samples.append({"scenario": sc, "workload_seed": job[1], "miri_seed": job[2], "preemption_rate": job[3], "observations": evs})
         try:
-            vs = classify(code, out, None)
+            vs = classify(code, out, HANG_PROP.get(sc, "C17"))
         except RuntimeError as e:
             sys.stderr.write(str(e))
             ck.die("Miri engine error")
@@ -140,16 +145,20 @@ def m_part(prop, tier, seed):
     n = 12 if tier == "quick" else 240
     if prop in ("C01", "C02", "C06"):
         n = 8 if tier == "quick" else 160
+    if prop == "C03":
+        n = 32 if tier == "quick" else 480
+    if prop == "C06":
+        n = 32 if tier == "quick" else 640
     # different properties that share a scenario explore different executions of it
     res = run_batch(prop, SCENARIOS[prop], n, seed + {"C02": 7, "C06": 13}.get(prop, 0))
     viol, stats = summarize(prop, res)
-    own = {"C01": ("C01", "C03", "C04", "C05", "C07"), "C02": ("C02",), "C06": ("C06",)}.get(prop, (prop, "C07"))
-    viol = [v for v in viol if v[0] in own or v[1] in ("hang", "undefined-behaviour")]
+    own = {"C01": ("C01", "C04", "C05", "C07"), "C02": ("C02",), "C03": ("C03",), "C06": ("C06",)}.get(prop, (prop, "C07"))
+    viol = [v for v in viol if v[0] in own or (v[1] in ("hang", "undefined-behaviour") and v[0] == prop)]
     return viol, stats
 
 def run(prop, tier, seed):
     t0 = time.time()
-    n = 48 if tier == "quick" else 1500
+    n = 80 if tier == "quick" else 2000
     res = run_batch("C17", SCENARIOS["C17"], n, seed)
     viol, stats = summarize("C17", res)
     wall = time.time() - t0
@@ -171,10 +180,10 @@ def run(prop, tier, seed):
             "samples": stats["samples"] or [{"note": "no observations"}],
             "runs_per_scenario": stats["per_scenario"],
             "runs_per_hour": int(stats["runs"] / hours),
-            "fault_kinds": {"actor_gated_shut (never answers until released)": stats["per_scenario"].get("timeout", 0), "full_mailbox": stats["per_scenario"].get("timeout", 0), "stopped_actor": stats["per_scenario"].get("blocking", 0) + stats["per_scenario"].get("deadletters", 0), "handler_panic (reply dropped)": stats["per_scenario"].get("deadletters", 0), "thread pre-emption at basic-block granularity, rates": RATES},
+            "fault_kinds": {"actor_gated_shut (never answers until released)": stats["per_scenario"].get("timeout", 0), "full_mailbox": stats["per_scenario"].get("timeout", 0), "stopped_actor": stats["per_scenario"].get("blocking", 0) + stats["per_scenario"].get("deadletters", 0), "actor_ends_while_blocking_callers_send (kill / stop / handler panic)": stats["per_scenario"].get("blocking_ask_vs_end", 0), "handler_panic (reply dropped)": stats["per_scenario"].get("deadletters", 0), "thread pre-emption at basic-block granularity, rates": RATES},
             "engine": "M (Miri)",
             "real_vs_stub": {"real": "rsactor (plain path dependency on /repo), tokio multi-thread runtime with 2 workers, std threads, helper threads and private runtimes of the timeout variants", "simulator_owned": "which thread runs next (Miri's seeded scheduler) and the clock (Miri's virtual monotonic clock)", "stubbed": "nothing"},
-            "oracles": "per-thread order, at-most-once, accepted-before-stop handled, reply integrity, error kinds, dead-letter counter delta, Timeout => elapsed >= timeout (never early), timeout variants return while the actor is still gated (never hang; Miri's deadlock verdict), deprecated aliases ignore their timeout, timeout variants do not panic inside a runtime",
+            "oracles": "per-thread order, at-most-once, accepted-before-stop handled, reply integrity, error kinds, dead-letter counter delta, Timeout => elapsed >= timeout (never early), timeout variants return while the actor is still gated (never hang; Miri's deadlock verdict), blocking_ask(None) racing the actor's end returns (Ok / Send / Receive; never hangs), deprecated aliases ignore their timeout, timeout variants do not panic inside a runtime",
         },
         "assumptions": ["Miri's clock charges virtual time per basic block, so only 'never early' and 'never hangs' are asserted about time; tight upper bounds are decided for the async wrappers in Engine S (C10)", "thousands, not millions, of executions"],
         "wall_s": round(wall, 2),
@@ -195,7 +204,7 @@ def replay(rf):
     code, out = one_run(rf["argv"][0], rf["argv"][1], rf["miri_seed"], rf["preemption_rate"])
     print(out[-3000:])
     try:
-        vs = classify(code, out, None)
+        vs = classify(code, out, HANG_PROP.get(rf["argv"][0], "C17"))
     except RuntimeError as e:
         print(e)
         return 2
